@@ -275,6 +275,63 @@ func (p *c19pkg) readConstBlock(g *ast.GenDecl, wantType string, why string) ([]
 	return out, nil
 }
 
+// tableConsts reads the constants a table or flag family is about: ALL constants of the file whose
+// type is wantType (a named type of the package, or "untyped int" / "uint8" / … where the table's
+// constants are declared that way), in source order.
+//
+// Normalisation (DESIGN.md §7, "constants wherever the file declares them").  The reader used to demand
+// that the file has exactly the const blocks it had when the extractor was written and read them by
+// index.  What the theorems consume is the LIST of declared constants of the table's type, and the value
+// of each comes from the type checker (iota, implicit repetition and typed/untyped rules included), so
+// that list does not depend on how the file groups its declarations:
+//
+//   - a const declaration in which NO constant has type wantType (the untyped string "UNKNOWN" of a
+//     default, a size, a constant of another type) does not declare constants of this table: it is skipped
+//     here and NOT claimed — whoever uses it (the default of a lookup helper, c19_codes.go) claims it, and
+//     if nobody does the leftovers check still reports it ("const declaration was not consumed");
+//   - a declaration in which EVERY constant has type wantType is a block of the table; several such blocks
+//     are merged in source order.  Splitting one block in two, or moving a block behind another
+//     declaration, therefore regenerates the same list (SecurityMode has had two blocks all along); a
+//     constant added, removed, retyped or given another value changes the list, hence the module;
+//   - a declaration that MIXES constants of type wantType with others is refused: it is no longer clear
+//     which of them the table means (for "untyped int" tables every untyped integer constant of the file
+//     counts — an unrelated one makes the decided side conditions fail, a false alarm, never a miss).
+//
+// Constants of the table's type declared in another file of the package are not looked for (as before).
+func (p *c19pkg) tableConsts(f *ast.File, wantType string, why string) ([]C19Const, error) {
+	var out []C19Const
+	for _, g := range constBlocks(f) {
+		own, foreign := 0, 0
+		for _, s := range g.Specs {
+			for _, id := range s.(*ast.ValueSpec).Names {
+				c, ok := p.info.Defs[id].(*types.Const)
+				if !ok {
+					return nil, p.errf(id, "constant %s has no type information", id.Name)
+				}
+				if typeName(c.Type()) == wantType {
+					own++
+				} else {
+					foreign++
+				}
+			}
+		}
+		switch {
+		case own > 0 && foreign > 0:
+			return nil, p.errf(g, "const declaration mixes %d constants of type %s with %d others (%s)", own, wantType, foreign, why)
+		case own > 0:
+			cs, err := p.readConstBlock(g, wantType, why)
+			if err != nil {
+				return nil, err
+			}
+			out = append(out, cs...)
+		}
+	}
+	if len(out) == 0 {
+		return nil, fmt.Errorf("%s: no const declaration of type %s (%s)", p.pos(f), wantType, why)
+	}
+	return out, nil
+}
+
 // findVar returns the value spec of package-level `var name = ...`
 func (p *c19pkg) findVar(f *ast.File, name string) (*ast.GenDecl, *ast.ValueSpec, error) {
 	for _, d := range f.Decls {
